@@ -168,7 +168,7 @@ CHECKS["C08"] = dict(
          "queue.DecodeSSVMessage, NodeInfo/SignedNodeInfo Consume+UnmarshalRecord, NodeMetadata.Decode, Subnets.FromString.",
     design_ref="DESIGN.md section 5 C08, section 7",
     note="The byte-string half is EXPLORATION seeded from the model (arbitrary byte strings are not enumerated); messages above a few KiB are "
-         "not generated; allocation ceiling 96 MiB per call; hang = a call slower than 2 s that is that slow again in three immediate repeats (a stall of a loaded machine is not a hang), or no return within 30 s in bulk mode. Shares one run with C09 (cached under .work/msgval).",
+         "not generated; allocation ceiling 96 MiB per call; hang = a call that is slower than 2 s or has not returned after 10 s and fails the same way three more times in a row when repeated on the same validator object (a stall of a loaded machine passes a repeat; an input the validator loops on, or a validator left wedged by an earlier call such as a leaked lock, fails every repeat); the replay file is the call history of that object, cut down to (call before + hanging call) when that hangs again on a fresh validator; direct ValidateSSVMessage calls: 60 s watchdog. Shares one run with C09 (cached under .work/msgval).",
     technique="TLA+ spec + TLC exhaustive check; implementation-driven sweep of the real validator over the spec alphabet with TLC trace "
               "validation; attack traces; model-seeded byte perturbation of validator and decoders",
 )
